@@ -77,6 +77,8 @@ func copyTrail(t []decision) []decision {
 }
 
 // exploreRoot explores the subtree below in.trail[:rootLen], splitting when useful.
+var exploreDeadline time.Time
+
 func (in *Interp) exploreRoot(p *pool, hidx int, fnRun func(), root []decision) {
 	in.trail = copyTrail(root)
 	rootLen := len(root)
@@ -92,6 +94,15 @@ func (in *Interp) exploreRoot(p *pool, hidx int, fnRun func(), root []decision) 
 		}
 		if in.h.Paths >= in.maxPaths {
 			in.h.Inconclusive = append(in.h.Inconclusive, fmt.Sprintf("path limit %d reached", in.maxPaths))
+			return
+		}
+		if !exploreDeadline.IsZero() && time.Now().After(exploreDeadline) {
+			// a path explosion (typically caused by a change to the code under test) must not hang the
+			// check: what was not explored is inconclusive, violations found so far are still reported
+			if !in.h.budgetHit {
+				in.h.budgetHit = true
+				in.h.Inconclusive = append(in.h.Inconclusive, "exploration time budget exceeded (path explosion): not all paths explored")
+			}
 			return
 		}
 		// split: hand the siblings of the first free decisions to other workers
